@@ -244,8 +244,9 @@ void runS5(Ctx &ctx, const QString &caseId, const QJsonObject &beh, int idx)
     proxy.total = size;
     proxy.fault.bitSeed = seed >> 3;
 
+    const QString ann = beh["ann"].toString("both");
     ctx.reset(caseId, { { "size", double(size) }, { "unit", double(unit) }, { "n", double((size + unit - 1) / unit) },
-                        { "k", proxy.fault.k }, { "at", fo["at"].toInt() } });
+                        { "k", proxy.fault.k }, { "at", fo["at"].toInt() }, { "ann", ann } });
 
     // the model behaviour this execution stands for, echoed for the trace specification
     for (const auto &sv : steps) {
@@ -286,8 +287,12 @@ void runS5(Ctx &ctx, const QString &caseId, const QJsonObject &beh, int idx)
     sendBuf.open(QIODevice::ReadOnly);
     QXmppTransferFileInfo info;
     info.setName("c19.bin");
-    info.setSize(file.size());
-    info.setHash(QCryptographicHash::hash(file, QCryptographicHash::Md5));
+    if (ann == "both" || ann == "size") {
+        info.setSize(file.size());
+    }
+    if (ann == "both" || ann == "hash") {
+        info.setHash(QCryptographicHash::hash(file, QCryptographicHash::Md5));
+    }
     sJob = ma->sendFile(kB, &sendBuf, info, QStringLiteral("sid-c19-s5"));
     if (sJob) {
         QObject::connect(sJob.data(), &QXmppTransferJob::finished, sJob.data(), [&]() { ++sFin; });
@@ -380,6 +385,8 @@ void runS5(Ctx &ctx, const QString &caseId, const QJsonObject &beh, int idx)
         { "rfin", rFin },
         { "sfin", sFin },
         { "applied", proxy.applied },
+        { "ann", ann },
+        { "k", proxy.fault.k },
         { "fwd", double(proxy.forwarded) },
         { "seen", double(proxy.seen) },
         { "stanzas", stanzas },
